@@ -425,7 +425,7 @@ CATALOGUE['C02'] += [
   (F, 'R-SLICEDEF', _FN, "    if len(slicedef) == 2:\n        slicedef.append(slicedef[-1] + 1)\n    slicedef = (slicedef + [None, ])[:4]\n    dimkey, dmin, dmax, dstride = slicedef", "    dimkey, dmin, dmax, dstride = (slicedef + [None, None])[:4]\n    if dmax is None:\n        dmax = dmin + 1"),
 ]
 CATALOGUE['C03'] += [
-  (F, 'R-UNTOUCHED', _IO, "            outf.VGLVLS = np.append(\n                nlayb[:, 0], nlayb[-1, 1]).view(np.ndarray)\n        outf.updatemeta()\n        return outf", "            outf.VGLVLS = np.append(\n                nlayb[:, 0], nlayb[-1, 1]).view(np.ndarray)\n        outf.updatemeta()\n        outf.updatetflag(overwrite=True)\n        return outf"),
+  (F, 'R-UNTOUCHED', _IO, "                [int(t.strftime('%H%M%S')) for t in newtimes])[:, None]\n        return outf", "                [int(t.strftime('%H%M%S')) for t in newtimes])[:, None]\n        outf.updatetflag(overwrite=True)\n        return outf"),
 ]
 CATALOGUE['C04'] += [
   (F, 'R-ORDER', _F, "        files = [cls(p, **kwds) for p in paths]", "        opened = dict((p, cls(p, **kwds)) for p in paths)\n        files = list(opened.values())"),
